@@ -191,8 +191,19 @@ fn build_bitflips(name: &'static str) -> Input {
     Input { name, dump: Arc::new(vh::procgen::build(&m)), syms: Arc::new(HashMap::new()), tag: "" }
 }
 
+/// 32-bit ARM without symbols: the callers are found by scanning, their validity sets hold alias spellings
+fn build_arm_scan(name: &'static str) -> Input {
+    use vh::procgen::{self, CpuK, Model, ThreadM};
+    let mut m = Model::new(CpuK::Arm, 0x8201);
+    m.threads = vec![ThreadM { tid: 1, ctx_ok: true, ip: procgen::APP_BASE + 0x40, sp: procgen::STACK_BASE }];
+    m.modules = vec![procgen::app_module()];
+    m.deep = Some(5);
+    Input { name, dump: Arc::new(procgen::build(&m)), syms: Arc::new(HashMap::new()), tag: "" }
+}
+
 fn inputs() -> Vec<Input> {
     vec![
+        build_arm_scan("arm-frames-found-by-scanning"),
         build_bitflips("amd64-bit-flips-from-two-registers"),
         build_two_builds("arm64-two-builds-of-one-file", true),
         build_two_builds("arm64-two-builds-of-one-file-one-without-symbols", false),
